@@ -20,7 +20,7 @@ fn handler_addr(k: usize) -> u16 {
 /// Supervisor routine: saves R0 (and R1), bumps a counter in supervisor memory, optionally reads KBDR, restores, RTI.
 const SERVICE_VECT: u16 = 0x30;
 const SERVICE_ADDR: u16 = 0x1080;
-fn handler_words(k: usize, read_kbdr: bool, calls_trap: bool) -> Vec<(u16, u16)> {
+fn handler_words(k: usize, read_kbdr: bool, calls_trap: bool, calls_puts: bool) -> Vec<(u16, u16)> {
     let h = handler_addr(k);
     let cnt = h + 0x11;
     let ptr = h + 0x10;
@@ -36,6 +36,12 @@ fn handler_words(k: usize, read_kbdr: bool, calls_trap: bool) -> Vec<(u16, u16)>
         // the handler itself calls a (harness-installed, silent) service routine: a TRAP inside an interrupt handler
         code.push(MInstr::Trap { vect: SERVICE_VECT as u8 });
     }
+    if calls_puts {
+        // the handler uses an OS routine itself: PUTS of an empty string (prints nothing, so the output stays comparable);
+        // when the interrupted program is inside PUTS too, two activations of the routine overlap
+        code.push(MInstr::Lea { dr: 0, off: 0 }); // patched below
+        code.push(MInstr::Trap { vect: 0x22 });
+    }
     code.push(MInstr::Ld { dr: 0, off: 0 });
     code.push(MInstr::Add { dr: 0, sr1: 0, src: Src::Imm(1) });
     code.push(MInstr::St { sr: 0, off: 0 });
@@ -50,6 +56,7 @@ fn handler_words(k: usize, read_kbdr: bool, calls_trap: bool) -> Vec<(u16, u16)>
         let pc1 = at + 1;
         let m = match m {
             MInstr::Ldi { dr, .. } => MInstr::Ldi { dr: *dr, off: (ptr - pc1) as i16 },
+            MInstr::Lea { dr, .. } => MInstr::Lea { dr: *dr, off: (h + 0x12 - pc1) as i16 },
             MInstr::Ld { dr, .. } => MInstr::Ld { dr: *dr, off: (cnt - pc1) as i16 },
             MInstr::St { sr, .. } => MInstr::St { sr: *sr, off: (cnt - pc1) as i16 },
             x => *x,
@@ -58,6 +65,7 @@ fn handler_words(k: usize, read_kbdr: bool, calls_trap: bool) -> Vec<(u16, u16)>
     }
     out.push((ptr, KBDR));
     out.push((cnt, 0));
+    out.push((h + 0x12, 0));
     out.push((0x180 + k as u16, h));
     if calls_trap {
         out.push((SERVICE_VECT, SERVICE_ADDR));
@@ -83,7 +91,7 @@ struct Sources {
 fn build(p: &ExecProg, real: bool, sched: &Sched) -> (Rig, Sources) {
     let mut spec = spec_for_prog(p, real, false, MachineInitStrategy::Known { value: 0 });
     for k in 0..NSRC {
-        spec.overlay.extend(handler_words(k, k == 0 && sched.kbd_irq, k == 2));
+        spec.overlay.extend(handler_words(k, k == 0 && sched.kbd_irq, k == 2, k == 1));
     }
     if sched.kbd_irq {
         spec.kbd = Some(vec![7, 8, 9]);
